@@ -78,6 +78,18 @@ TEMPLATES = [
     T("iso_T_ms_comma", "ms", lambda d: "%s-%02d-%02dT%02d:%02d:%02d,%03d" % (
         Y(d), d.month, d.day, d.hour, d.minute, d.second,
         d.microsecond // 1000)),
+    # every spelling the word tables list: "Sept", "hour"/"hours", ...
+    T("sept_d_y_hm", "min", lambda d: "%s %02d, %s %02d:%02d" % (
+        "Sept" if d.month == 9 else MONTHS3[d.month - 1], d.day, Y(d),
+        d.hour, d.minute)),
+    T("d_sept_y", "day", lambda d: "%02d %s %s" % (
+        d.day, "Sept" if d.month == 9 else MONTHSF[d.month - 1], Y(d))),
+    T("iso_hms_longwords", "s",
+      lambda d: "%s-%02d-%02d %02dhour%02dminute%02dsecond" % (
+          Y(d), d.month, d.day, d.hour, d.minute, d.second)),
+    T("iso_hms_pluralwords", "s",
+      lambda d: "%s-%02d-%02d %02dhours%02dminutes%02dseconds" % (
+          Y(d), d.month, d.day, d.hour, d.minute, d.second)),
     # label-style time first, packed date last
     T("hms_words_compact_date", "s",
       lambda d: "%02dh%02dm%02ds %s%02d%02d" % (
